@@ -163,6 +163,7 @@ pub fn base_plan(inst: Inst, mode: &str, rng: &mut Rng, reports: usize) -> PlanA
         skew: None,
         timeouts: false,
         store_faults: Vec::new(),
+        storage: Vec::new(),
         bit_offsets: if inst.class == "poplar1" && rng.chance(1, 4) { (0..2 + rng.usize_below(7)).map(|_| if rng.chance(1, 3) { 0 } else { rng.below(64) as u8 }).collect() } else { Vec::new() },
         inst,
     }
@@ -206,6 +207,43 @@ fn gen_plan(id: &str, seed: u64, _run: u64, tier: Tier) -> PlanA {
                 p.inst.weight = 1 + rng.below(k as u64) as u32;
             } else {
                 p.aps = crate::inst_poplar::gen_ap_history(rng, &p.inst, &inputs, 4, 12);
+            }
+            // two candidates whose cache keys have equal STORAGE WORDS unless keys are re-aligned:
+            // A = 0^o X tA (aligned) and B = X 0^o tB handed over at storage offset o; at depth
+            // m = o + |X| the live bits of both keys occupy the same word positions. A report on the
+            // path A[..m] tB makes a confusion of the two nodes visible in the counts.
+            if p.mode != "hh" && p.aps.len() == 1 && rng.chance(1, 4) {
+                let n = p.aps[0][0].len();
+                if (3..=48).contains(&n) {
+                    // the cache is probed at depths n-1, n-2, ... and (ring of capacity = number of
+                    // candidates) holds only the deepest nodes of the previous evaluation
+                    let m = if n >= 4 && rng.chance(1, 4) { n - 2 } else { n - 1 };
+                    let o = 1 + rng.usize_below(m - 1);
+                    let mut x: String = (0..m - o).map(|_| if rng.chance(1, 2) { '1' } else { '0' }).collect();
+                    x.pop();
+                    x.push('1');
+                    let ta: String = (0..n - m).map(|_| if rng.chance(1, 2) { '1' } else { '0' }).collect();
+                    let tb: String = (0..n - m).map(|_| if rng.chance(1, 2) { '1' } else { '0' }).collect();
+                    let a = format!("{}{}{}", "0".repeat(o), x, ta);
+                    let b = format!("{}{}{}", x, "0".repeat(o), tb);
+                    if a != b {
+                        let mut set: Vec<String> = vec![a.clone(), b.clone()];
+                        if rng.chance(1, 2) {
+                            set.extend(p.aps[0].iter().take(2).cloned());
+                        }
+                        set.sort();
+                        set.dedup();
+                        p.aps[0] = set;
+                        let junk: String = (0..o).map(|_| if rng.chance(1, 2) { '1' } else { '0' }).collect();
+                        p.storage.push((b, o as u8, junk));
+                        // plant a measurement below A[..m] ++ tB
+                        let planted: String = format!("{}{}", &a[..m], tb);
+                        let r0 = &mut p.reports[0];
+                        for (i, c) in planted.bytes().enumerate() {
+                            r0.meas[i] = N((c == b'1') as u128);
+                        }
+                    }
+                }
             }
             gen_noise(rng, &mut p);
             // noise faults are keyed on ap 0 / round 0 only; add a few for later rounds and params
@@ -574,6 +612,15 @@ impl<'a> Visitor for ExecVis<'a> {
                         if pb != *pb2 || ib != *ib2 {
                             return Err(format!("Evil<T> seam is not faithful: shares differ from the honest client's for measurement {twin:?}"));
                         }
+                    }
+                    (Err(crate::inst::ShardErr::Refused(e)), _) => {
+                        // the twin is a valid measurement: the honest client must be able to shard it
+                        ctx.fail(Violation::new(&format!("{}.collateral", robust_id(&plan.inst)), "twin_shard_refused".to_string(), format!("sharding refused the valid measurement {:?}: {e}", &twin[..twin.len().min(8)])));
+                        return Ok(ctx.finish());
+                    }
+                    (Err(crate::inst::ShardErr::Panic(v)), _) => {
+                        ctx.fail(v);
+                        return Ok(ctx.finish());
                     }
                     _ => return Err("Evil<T> fidelity: sharding failed".into()),
                 }
@@ -973,11 +1020,13 @@ fn exec_xof_plan(id: &'static str, p: &crate::checks_c11::Plan11, counters: &mut
 
 pub fn exec_plan_a(id: &'static str, accept: &'static [&'static str], plan: &PlanA, counters: &mut Counters) -> Result<RunOut, String> {
     crate::inst_poplar::set_offsets(plan.bit_offsets.clone());
+    crate::inst_poplar::set_storage(&plan.storage);
     let r = {
         let vis = ExecVis { plan, counters: &mut *counters, accept, id };
         guard_run(|| dispatch(&plan.inst, vis))
     };
     let unaligned = crate::inst_poplar::clear_offsets();
+    crate::inst_poplar::set_storage(&[]);
     if unaligned > 0 {
         counters.add("probe.unaligned_idpf_input_storage", unaligned);
     }
@@ -1009,6 +1058,11 @@ pub fn shrink_plan_a(p: &PlanA) -> Vec<PlanA> {
     if !p.bit_offsets.is_empty() {
         let mut q = p.clone();
         q.bit_offsets.clear();
+        out.push(q);
+    }
+    if !p.storage.is_empty() {
+        let mut q = p.clone();
+        q.storage.clear();
         out.push(q);
     }
     // drop faults, crashes
